@@ -224,6 +224,7 @@ SeenOf(ww, e) ==
         ELSE {})
   \cup (IF e.a \in {"SelectIndex", "SelectIndexes"} THEN {"kind-" \o e.kind} ELSE {})
   \cup (IF e.a = "Export" THEN {"fmt-" \o e.fmt} ELSE {})
+  \cup (IF e.a = "Export" /\ "via" \in DOMAIN e THEN {"via-" \o e.via} ELSE {})
   \cup (IF e.a \in {"PolyCollection", "Quiver"} /\ e.refuse # "" THEN {"refuse-" \o e.refuse} ELSE {})
   \cup (IF e.a = "PolyCollection" /\ Len(e.clim) = 2 THEN {"clim-override"} ELSE {})
   \cup (IF e.a = "PolyCollection" /\ e.transform THEN {"transform-override"} ELSE {})
